@@ -84,18 +84,18 @@ pub fn run_case(hier: &Arc<Hier>, q: &(Name, RecordType), faults: &[Fault], rt: 
     Run { outcome, log, inapplicable }
 }
 
-/// relation of a signer name to the zone that publishes the record
-fn relation(hier: &Hier, signer: &Name, pz_origin: &Name) -> &'static str {
+/// relation of an RRSIG signer to the record it covers and to the zone that publishes the record
+fn relation(signer: &Name, owner: &Name, pz_origin: &Name) -> &'static str {
     if signer == pz_origin {
-        return "own-zone";
-    }
-    let h = &hier.h;
-    match h.zone_index(signer) {
-        None => "no-such-zone",
-        Some(_) if hier.status(signer, RecordType::SOA) == Status::Insecure => "insecure-zone",
-        Some(_) if signer.zone_of(pz_origin) => "ancestor-zone",
-        Some(_) if pz_origin.zone_of(signer) => "child-zone",
-        Some(_) => "sibling-zone",
+        "own-zone"
+    } else if !signer.zone_of(owner) {
+        // a zone that has no authority over the owner name at all
+        "signer-not-enclosing-owner"
+    } else if signer.zone_of(pz_origin) {
+        "ancestor-zone"
+    } else {
+        // encloses the owner but lies below the publishing zone: the child side of a zone cut
+        "child-side-of-cut"
     }
 }
 
@@ -130,10 +130,17 @@ pub fn judge(hier: &Hier, q: &(Name, RecordType), honest_answer: &Message, out: 
     };
     let qstatus = hier.status(&q.0, q.1);
     let mut classes: Vec<&str> = vec![];
+    let mut secure_groups: Vec<(u8, Name, RecordType, usize)> = vec![];
     for r in recs.iter().filter(|r| r.sig.is_none()) {
-        let st = hier.status(&r.owner, r.rtype);
-        let pz = hier.h.zone_for(&r.owner, r.rtype).unwrap_or(0);
-        let pz_origin = &hier.h.zones[pz].origin;
+        // the zones that publish this very record (at a zone cut parent and child may both publish
+        // the same record); unpublished data is attributed to the zone that would be
+        // authoritative for it
+        let publishers: Vec<usize> = match hier.published.get(&(r.owner.to_lowercase().to_ascii(), u16::from(r.rtype), r.rdata.clone())) {
+            Some(v) => v.clone(),
+            None => vec![],
+        };
+        let is_published = !publishers.is_empty();
+        let cand: Vec<usize> = if is_published { publishers.clone() } else { vec![hier.h.zone_for(&r.owner, r.rtype).unwrap_or(0)] };
         let signers: Vec<&Name> = recs
             .iter()
             .filter(|s| s.sec == r.sec && s.proof == Proof::Secure && s.owner == r.owner)
@@ -141,17 +148,26 @@ pub fn judge(hier: &Hier, q: &(Name, RecordType), honest_answer: &Message, out: 
             .collect();
         let all_signers: Vec<&Name> = recs.iter().filter(|s| s.sec == r.sec && s.owner == r.owner).filter_map(|s| s.sig.as_ref().filter(|(t, _)| *t == r.rtype).map(|(_, n)| n)).collect();
         let sec_name = ["answer", "authority", "additional"][r.sec as usize];
+        // the candidate zone that fits best: secure and (one of) the validating signer(s)
+        let pz = *cand
+            .iter()
+            .find(|z| hier.status_zone(**z) == Status::Secure && signers.iter().any(|s| **s == hier.h.zones[**z].origin))
+            .or_else(|| cand.iter().find(|z| hier.status_zone(**z) == Status::Secure))
+            .unwrap_or(&cand[0]);
+        let pz_origin = &hier.h.zones[pz].origin;
         match r.proof {
             Proof::Secure => {
                 if r.sec == 0 {
                     classes.push("secure");
                 }
-                let published = hier.published.contains(&(r.owner.to_lowercase().to_ascii(), u16::from(r.rtype), r.rdata.clone()))
-                    || honest_answer.all_sections().any(|h| h.name == r.owner && h.record_type() == r.rtype && rdata_bytes(h) == r.rdata);
-                let rel = signers.iter().map(|s| relation(hier, s, pz_origin)).find(|x| *x != "own-zone").unwrap_or(if signers.is_empty() { "unknown" } else { "own-zone" });
-                if st == Status::Insecure {
+                if !secure_groups.iter().any(|g| g.0 == r.sec && g.1 == r.owner && g.2 == r.rtype) {
+                    secure_groups.push((r.sec, r.owner.clone(), r.rtype, pz));
+                }
+                let published = is_published || honest_answer.all_sections().any(|h| h.name == r.owner && h.record_type() == r.rtype && rdata_bytes(h) == r.rdata);
+                let rel = signers.iter().map(|s| relation(s, &r.owner, pz_origin)).find(|x| *x != "own-zone").unwrap_or(if signers.is_empty() { "unknown" } else { "own-zone" });
+                if hier.status_zone(pz) == Status::Insecure {
                     j.findings.push(Finding {
-                        clause: format!("secure-in-insecure-zone:{sec_name}:signer={rel}"),
+                        clause: format!("secure-in-insecure-zone:{rel}"),
                         what: format!("{} {} returned Secure although its zone {} has no chain of trust in the published hierarchy", r.owner, r.rtype, pz_origin),
                     });
                 } else if !published {
@@ -159,7 +175,7 @@ pub fn judge(hier: &Hier, q: &(Name, RecordType), honest_answer: &Message, out: 
                         j.obs.push("obs:unpublished-data-secure-via-ancestor-key(not-judged)".into());
                     } else {
                         j.findings.push(Finding {
-                            clause: format!("secure-unpublished-data:{sec_name}:signer={rel}"),
+                            clause: format!("secure-unpublished-data:{sec_name}:{rel}").replace("answer:signer-not", "signer-not").replace("authority:signer-not", "signer-not").replace("additional:signer-not", "signer-not"),
                             what: format!("{} {} returned Secure but the published zones hold no such record (validating RRSIG signer: {:?}, zone of the record: {})", r.owner, r.rtype, signers, pz_origin),
                         });
                     }
@@ -168,7 +184,7 @@ pub fn judge(hier: &Hier, q: &(Name, RecordType), honest_answer: &Message, out: 
                         j.obs.push("obs:published-data-secure-via-ancestor-key(not-judged)".into());
                     } else {
                         j.findings.push(Finding {
-                            clause: format!("secure-via-foreign-signer:{sec_name}:signer={rel}"),
+                            clause: format!("secure-via-foreign-signer:{rel}"),
                             what: format!("{} {} (published data) returned Secure on the strength of an RRSIG by {:?}, which is not the record's zone {}", r.owner, r.rtype, signers, pz_origin),
                         });
                     }
@@ -178,10 +194,13 @@ pub fn judge(hier: &Hier, q: &(Name, RecordType), honest_answer: &Message, out: 
                 if r.sec == 0 {
                     classes.push("insecure");
                 }
-                if st == Status::Secure {
-                    let rel = all_signers.iter().map(|s| relation(hier, s, pz_origin)).find(|x| *x != "own-zone").unwrap_or(if all_signers.is_empty() { "unsigned" } else { "own-zone" });
+                // allowed when some zone that publishes the record (or, for unpublished data, the
+                // zone that would hold it) is genuinely insecure
+                // (judged on answer records; an accepted negative answer is judged as a whole below)
+                if r.sec == 0 && cand.iter().all(|z| hier.status_zone(*z) == Status::Secure) {
+                    let rel = if all_signers.iter().any(|s| relation(s, &r.owner, pz_origin) == "signer-not-enclosing-owner") { "rrsig-signer-not-enclosing-owner" } else { "answer" };
                     j.findings.push(Finding {
-                        clause: format!("insecure-for-signed-zone:{sec_name}:rrsig={rel}"),
+                        clause: format!("insecure-for-signed-zone:{rel}"),
                         what: format!("{} {} returned Insecure although every delegation down to its zone {} is signed with a supported DS in the published hierarchy", r.owner, r.rtype, pz_origin),
                     });
                 }
@@ -199,14 +218,34 @@ pub fn judge(hier: &Hier, q: &(Name, RecordType), honest_answer: &Message, out: 
             }
         }
     }
+    // RRset exactness: the Secure records of one (section, owner, type) must be the whole
+    // published RRset (or the whole honestly synthesised one), not a part of it
+    for (sec, owner, rtype, pz) in &secure_groups {
+        let (sec, rtype) = (*sec, *rtype);
+        let got: std::collections::BTreeSet<&Vec<u8>> = recs.iter().filter(|r| r.sec == sec && r.sig.is_none() && r.proof == Proof::Secure && r.owner == *owner && r.rtype == rtype).map(|r| &r.rdata).collect();
+        // the RRset as published by the zone the records were attributed to
+        let mut want: std::collections::BTreeSet<Vec<u8>> = hier.h.zones[*pz].published.iter().filter(|p| p.name == *owner && p.record_type() == rtype).map(rdata_bytes).collect();
+        if want.is_empty() {
+            want = honest_answer.all_sections().filter(|h| h.name == *owner && h.record_type() == rtype).map(rdata_bytes).collect();
+        }
+        if !want.is_empty() && got.iter().all(|g| want.contains(*g)) && got.len() < want.len() {
+            j.findings.push(Finding {
+                clause: format!("secure-rrset-altered:part-of-published-rrset:{rtype}"),
+                what: format!("{} {}: {} of the {} published records returned Secure as if they were the whole RRset", owner, rtype, got.len(), want.len()),
+            });
+        }
+    }
     // negative answer accepted
     let has_answer = recs.iter().any(|r| r.sec == 0);
     if !has_answer {
         let truth_positive = !honest_answer.answers.is_empty();
         let validated_denial = recs.iter().any(|r| r.sec == 1 && r.proof == Proof::Secure && matches!(r.rtype, RecordType::NSEC | RecordType::NSEC3));
         let any_insecure = recs.iter().any(|r| r.sec == 1 && r.proof == Proof::Insecure);
+        let foreign_sig = recs.iter().any(|r| r.sec == 1 && r.proof == Proof::Insecure && r.sig.as_ref().map(|(_, n)| !n.zone_of(&r.owner)).unwrap_or(false));
         let pc = if validated_denial {
             "validated-denial"
+        } else if any_insecure && foreign_sig {
+            "authority-rrsig-signer-not-enclosing-owner"
         } else if any_insecure {
             "insecure-authority"
         } else if recs.iter().any(|r| r.sec == 1) {
@@ -216,7 +255,7 @@ pub fn judge(hier: &Hier, q: &(Name, RecordType), honest_answer: &Message, out: 
         };
         classes.push(match pc {
             "validated-denial" => "negative-secure",
-            "insecure-authority" => "negative-insecure",
+            "insecure-authority" | "authority-rrsig-signer-not-enclosing-owner" => "negative-insecure",
             _ => "negative-unproven",
         });
         if qstatus == Status::Secure {
